@@ -223,7 +223,8 @@ func runC19(t *testing.T, c explore.Case) (res explore.Result) {
 					token = y.fetchToken(bx.Addr, "get")
 				}
 			case "after-pending":
-				go func() { pendingPing = y.S.Ping(bx.Addr); pendingDone = true }()
+				// three tries: the resends fall after the installation of the list
+				go func() { pendingPing = y.S.PingQueryInput(bx.Addr, dht.QueryInput{NumTries: 3}); pendingDone = true }()
 				synctest.Wait()
 				e.net.collect()
 			}
@@ -405,6 +406,10 @@ func runC19(t *testing.T, c explore.Case) (res explore.Result) {
 			}
 			y.Deliver(e.u1.Addr, sim.Enc(sim.M{"t": "sq", "y": "q", "q": "find_node"}))
 		}
+		synctest.Wait()
+		// let resend and time-out timers of whatever is still pending (e.g. the query that was
+		// outstanding when the list was installed) run out before the write log is judged
+		time.Sleep(5 * time.Second)
 		synctest.Wait()
 		if v := e.checkWrites(); v != "" {
 			res.Viol = v
